@@ -28,6 +28,7 @@ def dispatchExec (op : String) (ts impl : List String) : Option String :=
   else if op == "decode" then Driver.Wire.exec op ts
   else if op == "sim" then Driver.Sim.exec ts impl
   else if op == "sim2" then some "nomodel"
+  else if op == "stress-shutdown" then some "ok"
   else if Driver.C11.isOp op then Driver.C11.exec op ts
   else if c08Ops.contains op then Driver.C08.exec op ts impl
   else if c18Ops.contains op then Driver.C18.exec op ts
@@ -40,6 +41,7 @@ def dispatchMon (op : String) (ts impl : List String) : Option String :=
   else if op == "decode" then Driver.Wire.monitor op ts impl
   else if op == "sim" then Driver.SimAll.monitorOp ts impl
   else if op == "sim2" then Driver.SimAll.monitorOp2 ts impl
+  else if op == "stress-shutdown" then Driver.MonShutdown.monitorStress impl
   else if Driver.C11.isOp op then Driver.C11.monitor op ts impl
   else if c08Ops.contains op then Driver.C08.monitor op ts impl
   else if c18Ops.contains op then Driver.C18.monitor op ts impl
